@@ -78,8 +78,12 @@ structure G where
   tyCache : List (Nat × Nat)          -- `_SubTypes` caches of the parametrised types
   ifCount : Nat                       -- `_prepare_ast_out.count`
   inl : List Nat                      -- `_inline_declared_entities`
+  dyn : List (Nat × Nat)              -- per entity class: ports in `EntityInfo.ports` that were added while an
+                                      -- architecture ran (`std.add_entity_port` / `add_port`); the class keeps them
+                                      -- until `_discard_dynamic_ports()` at the start of its NEXT elaboration, which
+                                      -- removes every port not in the snapshot `non_dynamic_ports`
 
-def G.init : G := ⟨fun _ => [], [], [], none, [], [], [], 0, []⟩
+def G.init : G := ⟨fun _ => [], [], [], none, [], [], [], 0, [], []⟩
 
 def upd (s : Kind → List (List Nat)) (k : Kind) (v : List (List Nat)) : Kind → List (List Nat) :=
   fun j => if j = k then v else s j
@@ -101,6 +105,7 @@ inductive Act where
   | libs (xs : List Nat)           -- `_library_declaration`: iterates a Python `set` of strings
   | mem (x : Nat) (xs : List Nat)  -- membership test in a Python `set` (`_used_names`, `written_temporaries`, ..)
   | emit (t : Nat)
+  | addPort (p : Nat)              -- `std.add_entity_port(self, Port..(name=p))` inside the running architecture
   deriving Repr
 
 inductive Ev where
@@ -111,7 +116,7 @@ inductive Ev where
   deriving Repr
 
 inductive Err where
-  | crash | nestedSM | convActive | noCtx | noEntity | noConv
+  | crash | nestedSM | convActive | noCtx | noEntity | noConv | portExists
   deriving DecidableEq, Repr
 
 inductive Res where
@@ -170,7 +175,7 @@ def enter (k : Kind) (a : List Nat) (n : Nat) (g : G) : Except Err (G × List To
     let e := a.headD 0
     if g.s .conv = [] then .error .noConv
     else if g.inst.contains e then .ok (push .archReuse [e] g, [[3, e]], .archReuse)
-    else .ok ({ push .arch [0, n, e] g with inst := e :: g.inst }, [], .arch)
+    else .ok ({ push .arch [0, n, e] g with inst := e :: g.inst, dyn := g.dyn.filter (fun q => q.1 != e) }, [], .arch)
   | .blk => .ok (push .blk [0, n] g, [], .blk)
   | .ctx => .ok ({ g with s := upd g.s .ctx [a] }, [], .ctx)
   | .pfx =>
@@ -243,6 +248,13 @@ def act (cfg : Cfg) (perm : List Nat → List Nat) (a : Act) (g : G) : Except Er
   | .libs xs => .ok (g, [6 :: (if cfg.fixLib then isort (perm xs) else perm xs)])
   | .mem x xs => .ok (g, [[7, if (perm xs).contains x then 1 else 0]])
   | .emit t => .ok (g, [[8, t]])
+  | .addPort p =>
+    match g.s .arch with
+    | fr :: _ =>
+      let e := fr.getD 2 0
+      if g.dyn.contains (e, p) then .error .portExists
+      else .ok ({ g with dyn := (e, p) :: g.dyn }, [[9, e, p]])
+    | [] => .error .noEntity
 
 def ageP : List Nat → List Nat
   | g :: rest => (g + 1) :: rest
@@ -303,6 +315,7 @@ def parseEv (t : String) : Option Ev :=
     | ["F", n] => n.toNat?.map (fun n => .act (.fn n))
     | ["T", n] => n.toNat?.map (fun n => .act (.ty n))
     | ["O", n] => n.toNat?.map (fun n => .act (.emit n))
+    | ["A", n] => n.toNat?.map (fun n => .act (.addPort n))
     | ["L", a] => (parseNats a).map (fun a => .act (.libs a))
     | ["M", x, a] => do let x ← x.toNat?; let a ← parseNats a; pure (.act (.mem x a))
     | _ => none
@@ -311,7 +324,7 @@ def showNats (l : List Nat) : String := ".".intercalate (l.map toString)
 
 def showErr : Err → String
   | .crash => "crash" | .nestedSM => "nestedSM" | .convActive => "convActive"
-  | .noCtx => "noCtx" | .noEntity => "noEntity" | .noConv => "noConv"
+  | .noCtx => "noCtx" | .noEntity => "noEntity" | .noConv => "noConv" | .portExists => "portExists"
 
 def showRes : Res → String
   | .ok out => "ok:" ++ "/".intercalate (out.map showNats)
@@ -330,6 +343,7 @@ def snapshot (g : G) : String :=
     kindName k ++ "=" ++ toString (if masked k || k == .ctx then (if n = 0 then 0 else 1) else n))
   " ".intercalate depth ++ " pfxs=" ++ ",".intercalate ((g.s .pfx).reverse.map showNats)
     ++ " inst=" ++ showNats g.inst ++ " reg=" ++ showNats g.reg ++ " inl=" ++ showNats g.inl
+    ++ " dyn=" ++ ",".intercalate (g.dyn.reverse.map (fun q => toString q.1 ++ ":" ++ toString q.2))
 
 def parseCfg (s : String) : Option Cfg :=
   match s.toList with
